@@ -24,30 +24,39 @@ void run_C04(vh::Ctx& c) {
     RhoFamily fam = (mask & OTHER) ? MANUFACTURED : COMMUTING;
     bool scal_manu = mask & OSCAL;
     Params P;
-    P.generate(r, nx, d, nr, ns, ti, fam, scal_manu, /*constant_rates=*/false, /*rate=*/r.uni(0.5, 2.0));
+    // "to the requested tolerance": the relative and the absolute tolerance mean different things once the state is
+    // not of order one, so a third of the problems live at another magnitude with the absolute tolerance far below rel*|y|
+    static const double amps[] = {1e-9, 1e-6, 1e-3, 1e4};
+    double amp = r.coin(0.35) ? amps[r.pick(4)] : 1.0;
+    P.generate(r, nx, d, nr, ns, ti, fam, scal_manu, /*constant_rates=*/false, /*rate=*/r.uni(0.5, 2.0), amp);
     if (fam == MANUFACTURED && r.coin(0.5)) { P.kappa = r.uni(0.3, 1.5) * r.sign(); c.count("state_dependent_sources"); }
     double T = r.uni(0.3, 1.5);
     int nseg = 1 + r.pick(2);
     double tolexp = sm.order == 2 ? r.uni(7.0, 8.5) : r.uni(8.0, 11.0);
     double tol = std::pow(10.0, -tolexp);
+    double atol = amp == 1.0 ? tol : tol * amp * 1e-3;
     unsigned nsteps = sm.order == 2 ? 12000 : sm.order == 4 ? 1500 : sm.order == 5 ? 800 : 250;
-    std::string what = vh::fmt("nx=%u d=%u nrhos=%u nscalars=%u switches=%s stepper=%s t_ini=%g T=%.6g segments=%d tol=%.3g nsteps=%u family=%s",
-                               nx, d, nr, ns, mask_str(mask), sm.name, ti, T, nseg, tol, nsteps, fam == MANUFACTURED ? "manufactured" : "commuting");
+    std::string what = vh::fmt("nx=%u d=%u nrhos=%u nscalars=%u switches=%s stepper=%s t_ini=%g T=%.6g segments=%d rel_error=%.3g abs_error=%.3g magnitude=%g nsteps=%u family=%s",
+                               nx, d, nr, ns, mask_str(mask), sm.name, ti, T, nseg, tol, atol, amp, nsteps, fam == MANUFACTURED ? "manufactured" : "commuting");
     c.desc(what);
     c.count(std::string("stepper.") + sm.name); c.count(vh::fmt("switches.%s", mask_str(mask))); c.count(vh::fmt("dim.%u", d));
+    c.count(vh::fmt("magnitude.%g", amp));
     c.count(vh::fmt("nx.%u", nx)); c.count(vh::fmt("nrhos.%u", nr)); c.count(vh::fmt("nscalars.%u", ns)); c.count(vh::fmt("t_ini.%g", ti));
     c.nontrivial(vh::fnv_str(what));
 
     Problem p(P);
     p.set_mask(mask, r.pick(120));   // the five setters in a random order
     p.Set_GSL_step(sm.type); p.Set_AdaptiveStep(sm.adaptive);
-    p.Set_rel_error(tol); p.Set_abs_error(tol); p.Set_h(1e-3 * r.uni(0.5, 2)); p.Set_NumSteps(nsteps);
+    p.Set_rel_error(tol); p.Set_abs_error(atol); p.Set_h(1e-3 * r.uni(0.5, 2)); p.Set_NumSteps(nsteps);
+    // step-size bounds that do not constrain a correct integration must not change its result
+    if (sm.adaptive && r.coin(0.25)) { p.Set_h_max(r.uni(0.02, 1.0)); c.count("settings.h_max"); }
+    if (sm.adaptive && r.coin(0.25)) { p.Set_h_min(1e-14); c.count("settings.h_min"); }
     // initial state
     std::vector<DM> rho0((size_t)nx * nr);
     std::vector<double> s0v((size_t)nx * ns);
     for (unsigned ix = 0; ix < nx; ix++) {
-      for (unsigned ir = 0; ir < nr; ir++) { DM m = fam == MANUFACTURED ? P.rho_star(ix, ir, ti) : fm::rand_herm(r, d); rho0[P.kr(ix, ir)] = m; p.set_rho(ix, ir, m); }
-      for (unsigned is = 0; is < ns; is++) { double v = scal_manu ? P.s_star(ix, is, ti) : r.normal(); s0v[P.ks(ix, is)] = v; p.scal(ix, is) = v; }
+      for (unsigned ir = 0; ir < nr; ir++) { DM m = fam == MANUFACTURED ? P.rho_star(ix, ir, ti) : amp * fm::rand_herm(r, d); rho0[P.kr(ix, ir)] = m; p.set_rho(ix, ir, m); }
+      for (unsigned is = 0; is < ns; is++) { double v = scal_manu ? P.s_star(ix, is, ti) : amp * r.normal(); s0v[P.ks(ix, is)] = v; p.scal(ix, is) = v; }
     }
     // the state array as a whole, to detect writes outside the modelled entries
     double t_now = ti;
@@ -85,9 +94,9 @@ void run_C04(vh::Ctx& c) {
       }
     }
     double allow;
-    if (mask == 0) allow = 1e-13 * (1 + ynorm);  // nothing enabled: the state must not move (bitwise freeze is judged by C10 on the raw array)
-    else if (sm.adaptive) allow = 2e3 * (tol + tol * ynorm);
-    else allow = (sm.order == 2 ? 1e-5 : 2e-6) * (1 + ynorm);
+    if (mask == 0) allow = 1e-13 * (amp + ynorm);  // nothing enabled: the state must not move (bitwise freeze is judged by C10 on the raw array)
+    else if (sm.adaptive) allow = 2e3 * (atol + tol * ynorm);   // GSL accepts a step on abs + rel*|y_i| per component
+    else allow = (sm.order == 2 ? 1e-5 : 2e-6) * (amp + ynorm);
     c.eval();
     c.worst(std::string("err_over_allowance.") + sm.name, allow > 0 ? err / allow : (err > 0 ? 1e300 : 0));
     if (!(err <= allow))
